@@ -1764,6 +1764,13 @@ func (p *parser) primaryExpression() (Node, error) {
 		if err := p.advance(); err != nil {
 			return nil, err
 		}
+
+		if isProjectNode(node) {
+			node = &PipeNode{
+				Left:  node,
+				Right: CurrentNode{},
+			}
+		}
 	case lexer.OpenBraceToken:
 		if err := p.advance(); err != nil {
 			return nil, err
